@@ -346,6 +346,9 @@ func (r *Recomposer) recomp(v any, rv reflect.Value) {
 		if et.Kind() == reflect.Ptr {
 			et = et.Elem()
 			for i := 0; i < size; i++ {
+				if va[i] == nil {
+					continue // a nil element stays a nil pointer
+				}
 				ev := reflect.New(et)
 				r.recomp(va[i], ev)
 				av.Index(i).Set(ev)
@@ -402,6 +405,11 @@ func (r *Recomposer) recomp(v any, rv reflect.Value) {
 		case et.Kind() == reflect.Ptr:
 			et = et.Elem()
 			for k, m := range vm {
+				if m == nil {
+					// a nil value stays a nil pointer
+					rv.SetMapIndex(reflect.ValueOf(k), reflect.Zero(rv.Type().Elem()))
+					continue
+				}
 				ev := reflect.New(et)
 				r.recomp(m, ev)
 				rv.SetMapIndex(reflect.ValueOf(k), ev)
@@ -560,6 +568,9 @@ func (r *Recomposer) setValue(v any, rv reflect.Value, sf *reflect.StructField) 
 		v = r.recompAny(v)
 		rv.Set(reflect.ValueOf(v))
 	case reflect.Ptr:
+		if v == nil {
+			return // nil stays a nil pointer (an element of an array of pointers)
+		}
 		ev := reflect.New(rv.Type().Elem())
 		r.recomp(v, ev)
 		rv.Set(ev)
